@@ -128,6 +128,40 @@ theorem srp_hash_accepted_by_verifier (S : SrpPrims) (hS : LawfulSrp S) (isPrime
   rw [hA, hB]
   exact srp_verifier_accepts S p g (beNat random) b hpos password i.salt1 i.salt2
 
+/-! ### Setting a new password (`SRP.NewHash`) -/
+
+/-- `SRP.NewHash` follows "Setting a new 2FA password" of the specification: 32 random bytes are
+appended to `salt1`, and the new password hash is `v = g^x mod p` (`x = PH2(password, new salt1, salt2)`)
+in big-endian form padded to 2048 bits — for every group accepted by `CheckDH`. -/
+theorem srp_newHash_eq_spec (S : SrpPrims) (hS : LawfulSrp S) (isPrime : Int → Bool) (password tape : Bytes)
+    (i : Input) (ht : 32 ≤ tape.length) (hgrp : C13.checkDH isPrime i.g ((beNat i.p : Nat) : Int) = .ok) :
+    Impl.newHash S isPrime password tape i =
+      .ok (Spec.pad (Spec.v S (beNat i.p) i.g.toNat password (i.salt1 ++ tape.take 32) i.salt2),
+        i.salt1 ++ tape.take 32) :=
+  newHash_eq_spec S hS isPrime password tape i ht hgrp
+
+/-- … and a later login with the same password against the stored hash succeeds: the verifier holding
+the number `NewHash` returned accepts the answer `SRP.Hash` computes with the new salt. -/
+theorem srp_newHash_then_hash_accepted (S : SrpPrims) (hS : LawfulSrp S) (isPrime : Int → Bool)
+    (password tape random : Bytes) (i : Input) (b : Nat) (hp : i.p.length = 256) (ht : 32 ≤ tape.length)
+    (hgrp : C13.checkDH isPrime i.g ((beNat i.p : Nat) : Int) = .ok) :
+    ∃ h newSalt, Impl.newHash S isPrime password tape i = .ok (h, newSalt) ∧
+      let p := beNat i.p
+      let g := i.g.toNat
+      let i' : Input := { i with salt1 := newSalt }
+      let srpB := Spec.pad (Spec.serverB S p g (beNat h) b)
+      ∃ A M1, Impl.srpHash S isPrime password srpB random i' = .ok (A, M1) ∧
+        Spec.serverAccepts S p g (beNat h) b newSalt i.salt2 (beNat A) M1 = true := by
+  refine ⟨_, _, srp_newHash_eq_spec S hS isPrime password tape i ht hgrp, ?_⟩
+  obtain ⟨hlo, hhi⟩ := group_bounds isPrime i.g (beNat i.p) hgrp
+  have hpos : 0 < beNat i.p := Nat.lt_of_lt_of_le (Nat.two_pow_pos 2047) hlo
+  have hv : beNat (Spec.pad (Spec.v S (beNat i.p) i.g.toNat password (i.salt1 ++ tape.take 32) i.salt2)) =
+      Spec.v S (beNat i.p) i.g.toNat password (i.salt1 ++ tape.take 32) i.salt2 :=
+    beNat_beBytes 256 _ (Nat.lt_trans (Nat.mod_lt _ hpos) hhi)
+  simp only [hv]
+  exact srp_hash_accepted_by_verifier S hS isPrime password random
+    { i with salt1 := i.salt1 ++ tape.take 32 } b hp hgrp
+
 /-! ### Non-vacuity -/
 
 /-- The primitive laws are satisfiable. -/
